@@ -284,6 +284,11 @@ func init() {
 		}
 		return e.T.False
 	})
+	v("CountString", func(e *Engine, fr *frame, fn *ssa.Function, a []Value) Value {
+		target := a[1].(Str)
+		seen := map[interface{}]bool{}
+		return e.countString(a[0], target, seen, 0)
+	})
 	v("DeepEqual", func(e *Engine, fr *frame, fn *ssa.Function, a []Value) Value {
 		return e.deepEqual(fr, a[0], a[1], 0)
 	})
@@ -1176,4 +1181,67 @@ func (e *Engine) findMethod(T types.Type, name string) *ssa.Function {
 		return nil
 	}
 	return e.prog.MethodValue(sel)
+}
+
+// countString counts the strings equal to target reachable from v (a term).
+func (e *Engine) countString(v Value, target Str, seen map[interface{}]bool, depth int) *sym.Term {
+	zero := e.intC(0)
+	if depth > 64 {
+		e.unsupported("CountString: value graph too deep")
+	}
+	switch x := v.(type) {
+	case Str:
+		return e.T.Ite(e.strEq(x, target), e.intC(1), zero)
+	case Iface:
+		if x.T == nil {
+			return zero
+		}
+		return e.countString(x.V, target, seen, depth+1)
+	case Struct:
+		r := zero
+		for _, f := range x {
+			r = e.T.Add(r, e.countString(f, target, seen, depth+1))
+		}
+		return r
+	case Array:
+		r := zero
+		for _, f := range x {
+			r = e.T.Add(r, e.countString(f, target, seen, depth+1))
+		}
+		return r
+	case []Value:
+		if len(x) == 0 {
+			return zero
+		}
+		key := &x[0]
+		if seen[key] {
+			return zero
+		}
+		seen[key] = true
+		r := zero
+		for _, f := range x {
+			r = e.T.Add(r, e.countString(f, target, seen, depth+1))
+		}
+		return r
+	case *Value:
+		if x == nil || seen[x] {
+			return zero
+		}
+		seen[x] = true
+		return e.countString(*x, target, seen, depth+1)
+	case *Map:
+		if x == nil || seen[x] {
+			return zero
+		}
+		seen[x] = true
+		r := zero
+		for _, ent := range x.Ents {
+			r = e.T.Add(r, e.countString(ent.k, target, seen, depth+1))
+			r = e.T.Add(r, e.countString(ent.v, target, seen, depth+1))
+		}
+		return r
+	case Opaque:
+		e.unsupported("CountString over opaque value: " + x.Why)
+	}
+	return zero
 }
